@@ -214,6 +214,19 @@ func (w *W) check(extra *Term, want []*Term) (SatResult, []uint64) {
 	w.flush()
 	res, vals, err := w.sol.CheckWith(extra, want)
 	if err != nil {
+		if w.sol.dead {
+			// restart the solver and re-assert the whole path condition lazily
+			old := w.sol
+			ns, nerr := NewSolver(old.kind, old.timeout)
+			if nerr != nil {
+				panic(nerr)
+			}
+			ns.nQuery, ns.nSat, ns.nUnsat, ns.nUnk, ns.dur, ns.nTimeout = old.nQuery, old.nSat, old.nUnsat, old.nUnk+1, old.dur, old.nTimeout
+			old.Close()
+			w.sol = ns
+			w.pending = append(w.pending[:0], w.pcAll...)
+			return Unknown, nil
+		}
 		w.abort("solver", "%v", err)
 	}
 	return res, vals
